@@ -90,6 +90,36 @@ Section MultiEnergy.
     end.
 End MultiEnergy.
 
+(* ---------------------------------------------------------------- pandapower's loop, as assumed
+   run_time_step(net, t, ts_variables) of pandapower 3.x, written with its collaborators as parameters:
+     control_time_step : every controller's time_step(t)        (ConstControl: write data_source[t]*scale)
+     run_control       : controller sweep + the registered run function; an exception of
+                         ts_variables["errors"] is caught -> pf_converged = False -> pf_not_converged
+                         (raises errors[0] unless continue_on_divergence)
+     output writer     : save_results(net, t, pf_converged, ...)
+   The laws assumed of these collaborators are the hypotheses of C13.Proofs.pandapower_loop_is_the_model. *)
+Section PandapowerLoop.
+  Variable C V R : Type.
+  Definition pdesc := C -> V.
+  Variable control_time_step : nat -> pdesc -> pdesc.       (* ConstControl.time_step of all controllers *)
+  Variable run_function : pdesc -> option R * pdesc.        (* registered run: result (None = listed error) and net after *)
+  Variable ow_save : nat -> option R -> list (nat * option R) -> list (nat * option R).   (* OutputWriter.save_results *)
+
+  Fixpoint pp_loop (cod : bool) (steps : list nat) (u : pdesc) (log : list (nat * option R))
+    : pdesc * list (nat * option R) * status :=
+    match steps with
+    | [] => (u, log, Finished)
+    | t :: rest =>
+        let u1 := control_time_step t u in
+        let (res, u2) := run_function u1 in
+        match res with
+        | Some r => pp_loop cod rest u2 (ow_save t (Some r) log)
+        | None => if cod then pp_loop cod rest u2 (ow_save t None log)
+                  else (u2, log, Raised t)        (* pf_not_converged raises before the output writer runs *)
+        end
+    end.
+End PandapowerLoop.
+
 (* lookup in the generated wiring table *)
 From Coq Require Import String.
 Fixpoint wget (k : string) (l : list (string * string)) : string :=
